@@ -128,6 +128,53 @@ pub fn run(ctx: &Ctx) {
             judge(&b, size, loc);
         }));
     }
+    // every Unicode scalar value as field content, intact and damaged
+    {
+        let scalars: u64 = 0x11_0000 - 0x800 - 1;
+        const V: u64 = 7;
+        ctx.run_family(Family::new("c19.chars", scalars * V, "EVERY Unicode scalar value c (U+0001..U+10FFFF without surrogates) in 7 contexts: the field is exactly c; c 'ab' then a lone lead byte; 'a' c NUL 'x'; c c with the second cut by the size limit; c alone with two bytes missing (incomplete); c U+FFFD 0xFF (a genuine replacement character before an invalid byte); c as the last character before padding NULs".to_string(), move |i, loc| {
+            let k = (i / V) as u32 + 1;
+            let code = if k >= 0xD800 { k + 0x800 } else { k };
+            let c = char::from_u32(code).expect("scalar");
+            let mut cb = [0u8; 4];
+            let cs = c.encode_utf8(&mut cb).as_bytes().to_vec();
+            let l = cs.len();
+            let (input, size): (Vec<u8>, usize) = match i % V {
+                0 => (cs.clone(), l),
+                1 => {
+                    let mut b = cs.clone();
+                    b.extend_from_slice(b"ab\xC3");
+                    (b, l + 3)
+                }
+                2 => {
+                    let mut b = vec![b'a'];
+                    b.extend_from_slice(&cs);
+                    b.extend_from_slice(b"\0x");
+                    (b, l + 3)
+                }
+                3 => {
+                    let mut b = cs.clone();
+                    b.extend_from_slice(&cs);
+                    b.push(b'z');
+                    (b, (2 * l).saturating_sub(1).max(1))
+                }
+                4 => (cs.clone(), l + 2),
+                5 => {
+                    let mut b = cs.clone();
+                    b.extend_from_slice("\u{FFFD}".as_bytes());
+                    b.extend_from_slice(b"\xFFrest");
+                    (b, l + 3 + 1 + 2)
+                }
+                _ => {
+                    let mut b = b"xy".to_vec();
+                    b.extend_from_slice(&cs);
+                    b.extend_from_slice(b"\0\0\0tail");
+                    (b, l + 5)
+                }
+            };
+            judge(&input, size, loc);
+        }));
+    }
     // ids of a message obey the same rule
     {
         let sp = Space::new(&[4096, 4]);
